@@ -1,5 +1,5 @@
 from bardolph.lib import i_lib
-from bardolph.lib.injection import bind
+from bardolph.lib.injection import bind_instance
 
 class StdOutOutput(i_lib.Output):
     def __init__(self):
@@ -17,9 +17,8 @@ class StdOutOutput(i_lib.Output):
         self._line_pending = False
 
     def flush(self):
-        if self._line_pending:
-            self.newline()
+        self._line_pending = False
 
 def configure():
-    bind(StdOutOutput).to(i_lib.Output)
+    bind_instance(StdOutOutput()).to(i_lib.Output)
 
